@@ -1058,7 +1058,8 @@ class PandasModelBase(
         for c in common_cols:
             if c not in on_a_set:
                 is_null = res[c].isnull()
-                res.loc[is_null, c] = res.loc[is_null, c + "_tmp_right_col"]
+                if is_null.any():
+                    res.loc[is_null, c] = res.loc[is_null, c + "_tmp_right_col"]
                 res = res.drop(c + "_tmp_right_col", axis=1, inplace=False)
         self.drop_indices(res)
         return res
